@@ -101,6 +101,8 @@ class InterpBase:
                 return bool(h.items)
             if isinstance(h, HSymDict) or isinstance(h, HSymSet):
                 return h.dom != z3.EmptySet(Val)
+            if isinstance(h, HBuf):
+                return z3.Length(h.seq) > 0
             if isinstance(h, HObj):
                 ci = h.cls
                 if isinstance(ci, ClassInfo):
